@@ -41,11 +41,12 @@ func qosProfile() *hist.Profile {
 }
 
 func checkC08(c *vk.Ctx) {
-	c.Rule = "random histories in which a publisher sends a QoS 2 PUBLISH, 0-3 DUP retransmissions with the same packet id, optionally drops and reconnects (clean start 0, session present) between any two packets, then PUBREL; other clients' traffic interleaved: " +
+	c.Rule = "random histories in which a publisher sends a QoS 2 PUBLISH, 0-3 DUP retransmissions with the same packet id, optionally drops and reconnects (clean start 0, session present) between any two packets, then PUBREL; other clients' traffic interleaved; a quarter of the withheld publishes use the packet id the broker will assign next to a message for the publisher itself: " +
 		"each such message must reach every entitled subscriber exactly once (unique payloads) and every retransmission must be answered with a PUBREC whose reason code is < 0x80. nontrivial = histories with >=1 retransmission"
 	p := qosProfile()
 	p.Name = "qos2in"
 	p.DupQ2Pct = 70
+	p.CollideNextPct = 25 // some publishes use the id the broker is about to hand out towards the publisher itself
 	p.SlotIDs = []int{0, 1, 2}
 	p.NoSelfTakeover = true
 	p.W = map[string]int{"connect": 4, "subscribe": 4, "publish": 8, "disconnect": 2, "retransmit": 6, "pubrel": 4, "ping": 1}
@@ -84,7 +85,7 @@ func checkC09(c *vk.Ctx) {
 }
 
 func checkC10(c *vk.Ctx) {
-	c.Rule = "random histories in which clients withhold acknowledgements so that broker-outbound packet ids stay outstanding, and deliberately reuse those ids for their own QoS 1/2 publishes (learnt from the wire), acknowledging in adversarial order; plus packet-id wrap-around. " +
+	c.Rule = "random histories in which clients withhold acknowledgements so that broker-outbound packet ids stay outstanding, and deliberately reuse those ids for their own QoS 1/2 publishes (learnt from the wire), acknowledging in adversarial order; plus packet-id wrap-around, and bursts from 8 publisher connections at once (150 QoS 1 messages each, one write per publisher) to a subscriber that acknowledges nothing, half of them with the id counter about to pass 65535. " +
 		"Checked: every outbound QoS>0 PUBLISH (DUP=0) has an id in 1..65535 not used by another unacknowledged outbound message on that connection; after an id collision the outbound message is still redelivered on reconnect and completed only by the client's acknowledgement. nontrivial = histories with >=1 outbound QoS>0 delivery"
 	p := qosProfile()
 	p.Name = "ids"
@@ -95,6 +96,7 @@ func checkC10(c *vk.Ctx) {
 	c.MinEvents["rx_PUBLISH"] = 500
 	c.MinEvents["own_publish_with_colliding_id"] = 50
 	c10Wraparound(c)
+	c10Concurrent(c)
 }
 
 func checkC11(c *vk.Ctx) {
